@@ -57,6 +57,31 @@ func checkC07(c *core.Ctx) {
 			}
 			return v
 		})
+		if wi == 1 {
+			// linear in the upstream gradient (the listed finding is linear too: no known-finding match needed)
+			for _, k := range []int{-565, 500} {
+				k := k
+				c.Case(fmt.Sprintf("%s/upstream2^%d", id, k), expanded, func() core.Verdict {
+					in := make([]*ref.T, len(shapes))
+					for i, s := range shapes {
+						in[i] = enum.Generic(s, uint64(200+i), 0.5, 3, true)
+					}
+					p := &ref.Program{Leaves: in}
+					ids := make([]int, len(in))
+					for i := range in {
+						p.Tracked = append(p.Tracked, mask&(1<<i) != 0)
+						ids[i] = i
+					}
+					p.Nodes = []ref.Node{{Op: op, In: ids}}
+					q, root := withWeighting(p, len(in), 13)
+					v := upstreamLinearCase(q, root, k)
+					if !v.OK && !v.Skip {
+						v.Detail = describeProgram(q) + " :: " + v.Detail
+					}
+					return v
+				})
+			}
+		}
 	}
 	targets = append(targets, []int{5}, []int{2, 4}, []int{4, 1, 5}, []int{33}, []int{3, 7}, []int{4}, []int{8}, []int{16, 2}, []int{2, 1, 2, 1, 2}, []int{1, 2, 1, 2, 1, 2})
 	for _, t := range targets {
